@@ -1,5 +1,5 @@
 (** C08 — A user lexicon adds candidates and can be replaced or cleared. *)
-From Vib Require Import Model.Base Model.Lattice Model.Tokenizer Proofs.Viterbi Proofs.TokenizerProofs Proofs.CountProofs Proofs.UserLexProofs.
+From Vib Require Import Model.Base Model.Lattice Model.Tokenizer Proofs.Viterbi Proofs.TokenizerProofs Proofs.WorkerProofs Proofs.CountProofs Proofs.UserLexProofs Proofs.PermProofs.
 From Coq Require Import Permutation.
 
 (** candidates with a user lexicon = candidates of the system lexicon extended by the same rows
@@ -8,6 +8,15 @@ From Coq Require Import Permutation.
 Theorem c08_candidates_equiv : forall d u o s sw,
   Permutation (map strip (candidates (with_user d (Some u)) o s sw)) (map strip (candidates (merged d u) o s sw)).
 Proof. exact candidates_user_merged. Qed.
+
+(** ... and in optimal cost: for every sentence and option setting both dictionaries complete or
+    panic together, reach the same minimum total cost and connect EOS to the same boundary (the
+    Viterbi minimum depends only on the multiset of candidate keys at every boundary: insertion
+    order within a start position and the lexicon-type / word-id labels are irrelevant) *)
+Theorem c08_same_optimum : forall d u o cs L0,
+  orel eos_same (build_lattice (with_user d (Some u)) o (compile (d_chars d) cs) L0)
+                (build_lattice (merged d u) o (compile (d_chars d) cs) L0).
+Proof. exact user_lexicon_same_optimum. Qed.
 
 (** added words are reported as user-lexicon words with the parameters of their row *)
 Theorem c08_user_labelled : forall u sw suffix c, In c (lex_matches 1%N u sw suffix) ->
@@ -39,6 +48,7 @@ Proof. split; vm_compute; [discriminate|reflexivity]. Qed.
 
 Check c08_candidates_equiv.
 Print Assumptions c08_candidates_equiv.
+Print Assumptions c08_same_optimum.
 Print Assumptions c08_user_labelled.
 Print Assumptions c08_system_kept.
 Print Assumptions c08_replace.
